@@ -260,6 +260,7 @@ func (x *wl) choices(k int, r *gen.Rng, j *sim.Journal) []lossChoice {
 	pickDir := func() sim.DirChoice { return dirs[r.Intn(len(dirs))] }
 	out := []lossChoice{
 		{name: "keep-all", keepData: sim.KeepAll, keepIndex: sim.KeepAll, dir: dirs[1]},
+		{name: "keep-all-olddir", keepData: sim.KeepAll, keepIndex: sim.KeepAll, dir: dirs[0]},
 		{name: "lose-all", keepData: sim.KeepNone, keepIndex: sim.KeepNone, dir: dirs[0]},
 		{name: "lose-data-keep-index", keepData: sim.KeepNone, keepIndex: sim.KeepAll, dir: dirs[1]},
 		{name: "lose-data-keep-index-olddir", keepData: sim.KeepNone, keepIndex: sim.KeepAll, dir: dirs[0]},
